@@ -40,7 +40,7 @@ MANIFEST = dict(
           "refine = true passes EVERY unpolished value through laguer on the undeflated polynomial (refine_polishes_all), and a polished "
           "value whose call exits Converged passes the smallness test on the undeflated polynomial (polished_converged); the snapping rule "
           "(snap_cases); for the float instance with ANY oracle table and every nonempty input no Vec access is out of bounds and no usize "
-          "subtraction underflows, so the only panic of Polynomial::roots is the degree-0 guard (float_roots_memory_safe). Over any commutative ring: laguer's inner loop computes (p(x), p'(x), p''(x)/2), identified by the Taylor expansion "
+          "subtraction underflows, so Polynomial::roots performs no out-of-bounds access and no usize underflow for any input of length >= 2 (so the degree-0 guard is its only index-class panic) (float_roots_memory_safe). Over any commutative ring: laguer's inner loop computes (p(x), p'(x), p''(x)/2), identified by the Taylor expansion "
           "and the running error bound errv (horner_triple, taylor_expansion), so a Converged exit means |p(x)| <= EPS*errv(p,x) at the "
           "returned iterate, for a polished value on the undeflated polynomial (converged_means_small, polished_converged_small); one deflation is p(t) = (t-x) q(t) + p(x) (deflate_spec); the whole deflation phase recomposes "
           "p exactly from the values found and one residual per value, hence p = a_n prod (t - x_j) when the residuals vanish "
@@ -422,7 +422,16 @@ def classify(case, items, kind, root=None):
                 if kind == "non-finite" and t[3] == 0: return "KF-C10-B"
                 if kind == "matching" and t[3] == 1 and t[0] != 2 and t[1] >= 2: return "KF-C10-B"
     # KF-C10-A: a laguer call that was entered with a finite iterate fell out of its loop (Exhausted)
-    if any(t[0] == 2 and t[2] == 1 for t in tr):
+    # Only calls that can have influenced the offending root count: its own deflation call and every EARLIER deflation call
+    # (root j is found on the polynomial deflated by the values found before it: calls 0 .. n-1-j), and its polishing call.
+    # Without an identified root, any call of the run.
+    if root is not None and n >= 4:
+        upstream = list(tr[:n - root]) + ([polish[root]] if refine and root < len(polish) else [])
+    elif root is not None:
+        upstream = list(mine)
+    else:
+        upstream = list(tr)
+    if any(t[0] == 2 and t[2] == 1 for t in upstream):
         return "KF-C10-A"
     # KF-C10-E: the convergence test |p(x)| <= err of a call that produced the offending root passed with err = inf
     if kind == "backward-error" and any(t[0] == 0 and t[4] == 0 for t in mine):
